@@ -1002,3 +1002,50 @@ def origins_satisfy (g, node, name, ok_at, _depth=0, _none_excluded=None):
       continue
     return False
   return True
+
+# ---------------------------------------------------------------------------
+# linear inequalities over program expressions (for "available >= needed" style facts)
+
+def lin_terms (e, alias=None):
+  """e as ({symbol text: coefficient}, constant) over + and - of names / attributes / len() calls and int literals;
+  None when e is not linear.  alias: {text: text} canonicalises symbols (e.g. 'buf_len' -> 'len(self.buf)')."""
+  alias = alias or {}
+  if isinstance(e, ast.Constant) and isinstance(e.value, int) and not isinstance(e.value, bool): return ({}, e.value)
+  if isinstance(e, ast.UnaryOp) and isinstance(e.op, ast.USub):
+    t = lin_terms(e.operand, alias)
+    if t is None: return None
+    return (dict((k, -v) for k, v in t[0].items()), -t[1])
+  if isinstance(e, ast.BinOp) and isinstance(e.op, (ast.Add, ast.Sub)):
+    a = lin_terms(e.left, alias); b = lin_terms(e.right, alias)
+    if a is None or b is None: return None
+    sgn = 1 if isinstance(e.op, ast.Add) else -1
+    d = dict(a[0])
+    for k, v in b[0].items():
+      d[k] = d.get(k, 0) + sgn * v
+      if d[k] == 0: del d[k]
+    return (d, a[1] + sgn * b[1])
+  if isinstance(e, (ast.Name, ast.Attribute, ast.Subscript)) or (isinstance(e, ast.Call) and call_name(e) == 'len' and len(e.args) == 1) or \
+     (isinstance(e, ast.BinOp) and isinstance(e.op, (ast.BitOr, ast.LShift))):
+    t = norm(e)
+    return ({alias.get(t, t): 1}, 0)
+  return None
+
+def fact_as_ge0 (l, o, r, alias=None):
+  """the comparison l o r over integers as `terms + const >= 0`; None if not linear / not an ordering"""
+  a = lin_terms(l, alias); b = lin_terms(r, alias)
+  if a is None or b is None or o not in ('<', '<=', '>', '>=', '=='): return None
+  d = dict(a[0])
+  for k, v in b[0].items():
+    d[k] = d.get(k, 0) - v
+    if d[k] == 0: del d[k]
+  c = a[1] - b[1]                       # l - r  o  0
+  if o == '>=' or o == '==': return (d, c)
+  if o == '>': return (d, c - 1)
+  neg = dict((k, -v) for k, v in d.items())
+  if o == '<=': return (neg, -c)
+  return (neg, -c - 1)                  # l < r  ->  r - l - 1 >= 0
+
+def implies_ge0 (fact, target):
+  """does `fact >= 0` imply `target >= 0`?  (same symbolic part, target constant not smaller)"""
+  if fact is None or target is None: return False
+  return fact[0] == target[0] and target[1] >= fact[1]
